@@ -5,6 +5,9 @@
    This file is trusted glue: integer <-> extracted [Model.z] conversion and
    dispatch only; all decoding of cases is done inside the Coq model. *)
 open Model
+(* the extracted model defines its own [string] (Coq.Strings.String) as soon as
+   a model file uses a string literal; keep OCaml's here *)
+type string = Stdlib.String.t
 
 let rec pos_of_bits (s : string) (i : int) (acc : positive option) : positive option =
   (* s is a string of '0'/'1', most significant first *)
